@@ -40,6 +40,15 @@ def do_replay(prop, path):
     elif rp.get("kind") == "occurrences":
         from vf.e1.hier_jobs import replay_occurrences
         viol, txt = replay_occurrences(rp)
+    elif rp.get("kind") == "redo_connections":
+        from vf.e1.flatten_jobs import replay_redo
+        viol, txt = replay_redo(rp)
+    elif rp.get("kind") == "is_unique":
+        from vf.e1.flatten_jobs import replay_is_unique
+        viol, txt = replay_is_unique(rp)
+    elif rp.get("kind") == "make_unique":
+        from vf.e1.flatten_jobs import replay_make_unique
+        viol, txt = replay_make_unique(rp)
     elif rp.get("kind") == "policy":
         from vf.e1.parser_jobs import replay_policy
         viol, txt = replay_policy(rp)
